@@ -5,6 +5,9 @@ import htmlobs as HO
 
 PROFILE = dict(separators=False, style_map=0.5, bang=0.25, p_textbox=0.12, p_deleted_mark=0.12, p_field=0.2, p_note=0.2,
                p_insdel=0.2, p_altcontent=0.12, p_sdt=0.12, p_sym=0.1, p_smart=0.1, hostile=0.6, p_comment=0.1)
+# content controls with real content AND a full w:sdtPr (alias / tag / lock / w:showingPlcHdr in every on/off spelling / kind element /
+# check box): none of the properties except w14:checkbox changes what the content is - it is live text and must be read through
+PROFILE.update(p_sdt_rich=0.5)
 SM = dict(hid=0, hostile=0.2)
 
 
@@ -186,6 +189,7 @@ def oracle(case, r):
 
 
 NT = {"textbox", "deleted-mark", "note-footnote", "note-endnote", "del", "ins", "altcontent", "sdt", "field-ext", "table", "sym", "tab"}
+NT |= {"sdt-run", "sdt-block", "sdt-run-placeholder", "sdt-block-placeholder"}
 
 
 def run(out, tier, seed, model_ok):
